@@ -406,7 +406,7 @@ func runC07(run *Run) {
 	if run.Tier == "thorough" {
 		nOrd, nAdv = 50000, 0 // 0 = full adversarial grid
 	}
-	run.Rule = "random Lua programs (all statement kinds incl. goto/labels, closures, varargs, method calls, table constructors; all operators, nested) plus an adversarial profile (190-201 locals, 255/256/257 and 511/512/513 constants, 50/51/25500/25550/25551/25600 array fields, 10^4 hash fields, nesting depth 200, 250-300 upvalues, jumps of ±(2^17-1, 2^17, 2^17+1) for every loop kind, if/else and goto, 131071-131074 labels, >2^18 constants) compiled by the real parse.Parse+lua.Compile; every FunctionProto is decided by the Lean verifier wf (translation validation); plus `frag` cases (TEST of the tie behind theorem compile_fragment_wf): programs of the modelled compiler fragment (conditions, logical/relational operators, local/global assignment, if/while/repeat/return/local; random, deep conditions x 12 contexts, nested relational temporaries, 150-200 chunk locals around maxRegisters, constant indices around 255/256, MOVE runs up to 199, empty programs) compiled by the real front-end and compared field by field with the Lean fragProto (compile model -> patchCode -> toProto), FragOK and wf evaluated on the result; distinct = distinct top-level statement-kind skeletons among cases with >= 3 statements"
+	run.Rule = "random Lua programs (all statement kinds incl. goto/labels, closures, varargs, method calls, table constructors; all operators, nested) plus an adversarial profile (190-201 locals, 255/256/257 and 511/512/513 constants, 50/51/25500/25550/25551/25600 array fields, 10^4 hash fields, nesting depth 200, 250-300 upvalues, jumps of ±(2^17-1, 2^17, 2^17+1) for every loop kind, if/else and goto, 131071-131074 labels, >2^18 constants) compiled by the real parse.Parse+lua.Compile; every FunctionProto is decided by the Lean verifier wf (translation validation); plus `frag` cases (TEST of the tie behind theorem compile_fragment_wf): programs of the modelled compiler fragment (conditions, logical/relational operators, arithmetic with constant folding, unary minus, length, concatenation chains, local/global assignment, if/while/repeat/return/local; random programs and deep expressions with 0/45/55 % arithmetic nodes x 12 contexts, bounded-exhaustive operator x operand-class trees and concatenation chains (sampled in quick), nested relational temporaries, 150-200 chunk locals with relational/arithmetic/concatenation chains around maxRegisters, constant indices around 255/256 for comparison and arithmetic operands, MOVE runs up to 199, empty programs) compiled by the real front-end and compared field by field with the Lean fragProto (compile model -> patchCode -> toProto), FragOK and wf evaluated on the result; distinct = distinct top-level statement-kind skeletons among cases with >= 3 statements"
 	run.Assume = []string{
 		"the abstract VM `step` (Model/Verifier.lean) lists every slice index / register read of /repo/_vm.go per opcode; sampled by executing the compiled ordinary programs under recover (a Go index panic in wf-approved code is reported)",
 		"register writes cannot fault (reg.Set/SetNumber/SetTop/CopyRange/FillNil call checkSize first) and reg.array never shrinks, so only register reads are obligations of wf_sound",
